@@ -181,6 +181,9 @@ class State(object):
         self.counter = [0]
         self.narrow = {}
         self.iter_uses = []
+        # structured record of the isinstance tests decided on this path:
+        # (value, type names, verdict)
+        self.facts = []
 
     def copy(self):
         s = State()
@@ -193,6 +196,7 @@ class State(object):
         s.counter = self.counter
         s.narrow = dict(self.narrow)
         s.iter_uses = list(self.iter_uses)
+        s.facts = list(self.facts)
         return s
 
     def alloc(self, rec):
@@ -247,7 +251,8 @@ class ListVal(object):
 class Outcome(object):
 
     def __init__(self, prod, status, value, nodes, conds, effects, raised,
-                 narrow=None, iter_uses=None):
+                 narrow=None, iter_uses=None, facts=None):
+        self.facts = facts or []
         self.narrow = narrow or {}
         self.iter_uses = iter_uses or []
         self.prod = prod
@@ -337,7 +342,8 @@ class Interp(object):
                                 s.effects, val if status == 'raise' else
                                 None, dict(s.narrow),
                                 [(self.resolve(v, s, cache), ln, what)
-                                 for v, ln, what in s.iter_uses]))
+                                 for v, ln, what in s.iter_uses],
+                                facts=list(s.facts)))
         return outs
 
     def err(self, node, msg):
@@ -524,6 +530,35 @@ class Interp(object):
             for r in self.exec_block(branch, s):
                 yield r
 
+    WHILE_BOUND = 4
+
+    def s_While(self, stmt, st):
+        """bounded unrolling; a path on which the test may still hold after
+        WHILE_BOUND iterations is cut (recorded as a condition)"""
+        if stmt.orelse:
+            self.err(stmt, 'while/else')
+        states = [st]
+        for _ in range(self.WHILE_BOUND):
+            nxt = []
+            for s in states:
+                for s1, verdict in self.cond(stmt.test, s):
+                    if not verdict:
+                        yield s1, 'next', None
+                        continue
+                    for s2, status, val in self.exec_block(stmt.body, s1):
+                        if status == 'next':
+                            nxt.append(s2)
+                        else:
+                            yield s2, status, val
+            states = nxt
+            if not states:
+                return
+        for s in states:
+            for s1, verdict in self.cond(stmt.test, s):
+                if not verdict:
+                    yield s1, 'next', None
+                # else: deeper than the bound - cut
+
     def s_For(self, stmt, st):
         if stmt.orelse:
             self.err(stmt, 'for/else')
@@ -653,6 +688,13 @@ class Interp(object):
         a.conds.append((ast.unparse(test), True))
         b = st.copy()
         b.conds.append((ast.unparse(test), False))
+        if isinstance(test, ast.Call) and isinstance(
+                test.func, ast.Name) and test.func.id == 'isinstance' and \
+                len(test.args) == 2:
+            val = self.eval1(test.args[0], st)
+            types = tuple(self.type_names(test.args[1]))
+            a.facts.append((val, types, True))
+            b.facts.append((val, types, False))
         fact = self.narrowing_fact(test, st)
         if fact is not None:
             idx, kind, arg = fact
